@@ -54,6 +54,7 @@ func honestSigners(marks []int) []int {
 var voteClasses = []string{
 	"honest", "honest", "honest", "one-below", "phantom-pad", "phantom-pad", "phantom-extra", "drop-signer", "extra-signer",
 	"swap-stranger", "dup-share", "wrong-ctx", "wrong-ctx", "msg-fields", "msg-proposer", "tamper", "tamper", "malformed", "free",
+	"reuse", "reuse",
 }
 
 func genVoteSpec(t *rapid.T, n int) VoteSpec {
@@ -179,6 +180,10 @@ func genVoteSpec(t *rapid.T, n int) VoteSpec {
 		default:
 			s.SigKind = rapid.IntRange(1, 4).Draw(t, "sig")
 		}
+	case "reuse":
+		// the bitmap and aggregate signature of an earlier valid vote of this case, relabelled for the current
+		// sequence and epoch, under another body (falls back to an honest vote when there is no earlier one)
+		s.Reuse = rapid.IntRange(1, 6).Draw(t, "reuse")
 	case "free":
 		bm := rapid.SampledFrom([]int{0, 8, 8, 16, 24, 32}).Draw(t, "bm")
 		s.BitmapBytes = bm
@@ -207,7 +212,9 @@ func genQuorumCase(maxVotes int) func(t *rapid.T) QuorumCase {
 		}
 		k := rapid.IntRange(1, nv).Draw(t, "votes")
 		for i := 0; i < k; i++ {
-			c.Votes = append(c.Votes, genVoteSpec(t, c.N))
+			v := genVoteSpec(t, c.N)
+			v.Reimport = i > 0 && rapid.IntRange(0, 7).Draw(t, "reimport") == 0 // used by the app slice only
+			c.Votes = append(c.Votes, v)
 		}
 		return c
 	}
@@ -257,14 +264,21 @@ func runQuorumHandler(c QuorumCase) Outcome {
 		return o
 	}
 	defer f.close()
+	var prior []priorVote
 	for i, vs := range c.Votes {
 		v, err := f.buildVote(vs)
 		if err != nil {
 			o.Fail = failf("fixture", "vote-build-failed", "vote %d: %v", i, err)
 			return o
 		}
+		if f.reuseVote(v, vs, prior) {
+			o.Classes = append(o.Classes, "signature-reused")
+		}
 		ctx, _ := f.sim.Node.CommittedCtx().CacheContext()
 		herr := callVotedHandler(f.sim.Node, ctx, v.msg)
+		if herr == nil && v.mustAccept && !v.unspecified {
+			prior = append(prior, f.priorOf(v))
+		}
 		o.Evals++
 		o.Classes = append(o.Classes, vs.Class+"/"+kindNames[vs.Kind%numVoteKinds])
 		if c.N >= 1 && v.genuine {
@@ -302,7 +316,7 @@ func TestC01_Handler(t *testing.T) {
 	RunProp(t, Prop[QuorumCase]{
 		ID: "C01", Name: "handler", Quick: 320, Thor: 8000,
 		Gen: genQuorumCase(24), Run: runQuorumHandler,
-		Rule: "per case: a relayer group (0..256 voters, chosen epoch/sequence, ECDSA or Schnorr bridge key) established by genesis plus two real blocks, then up to 24 votes built per class (honest at/above threshold, one below, phantom marks beyond the voter list, signer set != marks, wrong chain/sequence/epoch/method/proposer, payload changed after signing, malformed bitmap/signature, free-form) and given to the registered handler of each of the 5 voted messages on a branch of committed state; oracle = reference quorum predicate; non-trivial = group has >= 1 voter and the vote contains a genuine member share for the right sequence and epoch; evaluations count votes",
+		Rule: "per case: a relayer group (0..256 voters, chosen epoch/sequence, ECDSA or Schnorr bridge key) established by genesis plus two real blocks, then up to 24 votes built per class (honest at/above threshold, one below, phantom marks beyond the voter list, signer set != marks, wrong chain/sequence/epoch/method/proposer, payload changed after signing, bitmap and signature of an earlier valid vote of the same case relabelled for the current sequence/epoch under another body, malformed bitmap/signature, free-form) and given to the registered handler of each of the 5 voted messages on a branch of committed state; oracle = reference quorum predicate; non-trivial = group has >= 1 voter and the vote contains a genuine member share for the right sequence and epoch; evaluations count votes",
 	})
 }
 
@@ -316,6 +330,7 @@ func runQuorumApp(c QuorumCase) Outcome {
 		return o
 	}
 	defer f.close()
+	var prior []priorVote
 	for i, vs := range c.Votes {
 		if vs.Kind%numVoteKinds == kindProcess && len(f.pending) == 0 {
 			continue
@@ -324,6 +339,24 @@ func runQuorumApp(c QuorumCase) Outcome {
 		if err != nil {
 			o.Fail = failf("fixture", "vote-build-failed", "vote %d: %v", i, err)
 			return o
+		}
+		if f.reuseVote(v, vs, prior) {
+			o.Classes = append(o.Classes, "signature-reused")
+		}
+		if vs.Reimport && i > 0 {
+			// the chain is restarted from its exported state; group, epoch and sequence must carry over, so the vote
+			// built above (for the sequence before the restart) keeps its verdict
+			if err := f.sim.Reimport(); err != nil {
+				o.Fail = failf("re-import", "re-import-failed", "vote %d: %v", i, err)
+				return o
+			}
+			o.Classes = append(o.Classes, "reimported")
+			if b, txs, err := f.sim.Begin(world.StepOpts{DT: 5 * time.Second, Proposer: -1}); err == nil {
+				if _, err := f.sim.Exec(b, txs, false); err != nil {
+					o.Fail = failf("block-processing", "block-failed", "first block after re-import: %v", err)
+					return o
+				}
+			}
 		}
 		raw, err := f.sim.Node.Tx(v.signer, 0, world.TxOpts{}, v.msg)
 		if err != nil {
@@ -369,6 +402,9 @@ func runQuorumApp(c QuorumCase) Outcome {
 				return o
 			}
 			f.consume(v.body)
+			if v.mustAccept {
+				prior = append(prior, f.priorOf(v))
+			}
 		}
 	}
 	return o
